@@ -212,6 +212,10 @@ func main() {
 					finishJob()
 					continue
 				}
+				if res.Verdict == "pruned" {
+					finishJob()
+					continue
+				}
 				mu.Lock()
 				results = append(results, res)
 				if *verbose || res.Verdict != "pass" {
